@@ -1360,6 +1360,31 @@ pub fn c02(ctx: &Ctx) -> Report {
         rep.count("directory-grown-into-stale-cluster");
         run_case(&mut rng, &sc, &cfg, &mut model, &mut rep, &format!("c02/{}/grow{k}", ctx.seed));
     }
+    // appending to files whose length is an exact multiple of the cluster size (the chain has to be extended from its
+    // last cluster while the handle's cluster cursor is on an earlier one): re-open in append mode, and seek back /
+    // read / seek to the end within one handle; remount and compare
+    for k in 0..budget(ctx, 3, 12) {
+        let o = ScOpts { fat32: Some(k % 3 == 2), bpc_choices: vec![1, 2, 4], big_tree: k % 2 == 0, limits: Some((4, 4, 1)), dirty: k % 2 == 1, ..Default::default() };
+        let sc = make_scenario(&mut rng, &o);
+        let (v, d) = (sc.id_offset, sc.id_offset.wrapping_add(1));
+        let cb = (sc.vols[0].layout.bpc * 512) as usize;
+        let pat = |n: usize, t: usize| -> Vec<u8> { (0..n).map(|i| (i * 5 + t + (i >> 9)) as u8).collect() };
+        let script = vec![
+            Op::OpenVolume(sc.vols[0].slot), Op::OpenRoot(v),
+            Op::OpenFile(d, "AP.BIN".into(), Mode::ReadWriteCreate), Op::Write(LAST_FILE, pat(2 * cb, k)), Op::CloseFile(LAST_FILE),
+            Op::OpenFile(d, "AP.BIN".into(), Mode::ReadWriteAppend), Op::Write(LAST_FILE, pat(100, 7)), Op::CloseFile(LAST_FILE),
+            Op::OpenFile(d, "AP2.BIN".into(), Mode::ReadWriteCreate), Op::Write(LAST_FILE, pat(3 * cb, 9)), Op::SeekStart(LAST_FILE, 5), Op::Read(LAST_FILE, 10), Op::SeekEnd(LAST_FILE, 0), Op::Write(LAST_FILE, pat(cb + 3, 11)),
+            Op::SeekStart(LAST_FILE, (cb + 1) as u32), Op::Read(LAST_FILE, 4), Op::SeekEnd(LAST_FILE, 0), Op::Write(LAST_FILE, pat(2 * cb - 3, 13)), Op::Flush(LAST_FILE), Op::CloseFile(LAST_FILE),
+            Op::OpenFile(d, "AP2.BIN".into(), Mode::ReadWriteCreateOrAppend), Op::Write(LAST_FILE, pat(cb, 15)), Op::CloseFile(LAST_FILE),
+            Op::OpenFile(d, "AP.BIN".into(), Mode::ReadOnly), Op::Read(LAST_FILE, 3 * cb), Op::CloseFile(LAST_FILE), Op::List(d),
+        ];
+        let mut cfg = RunCfg::base(script.len(), Profile::rw());
+        cfg.script = Some(script);
+        cfg.tree_at_quiescent = true;
+        cfg.remount_at_quiescent = true;
+        rep.count("scripted:append-at-cluster-multiple");
+        run_case(&mut rng, &sc, &cfg, &mut model, &mut rep, &format!("c02/{}/append{k}", ctx.seed));
+    }
     kf_e5_name(&mut rep, &mut rng, &mut model);
     finish(rep, &model, "histories of create/write/truncate/append/delete/mkdir over pre-populated trees (nested directories, long-name entries, deleted slots, fragmented chains); every 15 operations and at the end all files are closed, the medium is dumped by the independent Lean FAT reader and compared entry for entry (names, attributes, sizes, raw creation and write stamps, content digests) with the reference tree, and a fresh VolumeManager lists and reads everything back; distinct = histories")
 }
